@@ -22,7 +22,7 @@ def segStr : Seg → String
 def pathStr (p : Path) : String := "/".intercalate (p.map segStr)
 
 def leafTable (n : String) : List J :=
-  if n == "Int" then [.num 0, .num 1, .num (-7), .num 42, .num 2147483646, .str "12"]
+  if n == "Int" then [.num 0, .num 1, .num (-7), .num 42, .num 2147483646, .str "12", .num 2147483647, .num (-2147483648)]
   else if n == "Float" then [.obj [("$float", .str "0.5")], .obj [("$float", .str "-2.25")], .obj [("$float", .str "3.0")],
                              .obj [("$float", .str "1000.0")], .num 2]
   else if n == "String" then [.str "", .str "a", .str "x y", .str "q\"uote", .bool true, .num 5]
@@ -30,9 +30,10 @@ def leafTable (n : String) : List J :=
   else if n == "ID" then [.str "id1", .num 7, .str "0"]
   else [.num 1, .str "s", .bool true, .num (-3)]
 
-def wrongLeaf (n : String) : Option J :=
-  if n == "Int" then some (.str "zz") else if n == "Float" then some (.str "zz")
-  else if n == "String" then some (.arr [.num 1]) else none
+def wrongLeaves (n : String) : List J :=
+  if n == "Int" then [.str "zz", .num 2147483648, .num (-2147483649)]
+  else if n == "Float" then [.str "zz", .obj [("$float", .str "nan")], .obj [("$float", .str "inf")], .obj [("$float", .str "-inf")]]
+  else if n == "String" then [.arr [.num 1]] else []
 
 def nth (l : List α) (i : Nat) (d : α) : α := (l[i]?).getD d
 
@@ -65,7 +66,8 @@ def genNN (s : SchemaD) (mode : Nat) : Ty → Nat → RVal
         let vals := ((s.findType n).map (·.values)).getD []
         .leaf ((nth vals (mix h 1 % vals.length) default).value)
     | _ =>
-      match (if mode == 1 && mix h 0 % 16 == 4 then wrongLeaf n else none) with
+      let wr := wrongLeaves n
+      match (if mode == 1 && mix h 0 % 16 == 4 && !wr.isEmpty then some (nth wr (mix h 2 % wr.length) .null) else none) with
       | some j => .leaf j
       | none =>
         let tab := leafTable n
